@@ -11,9 +11,10 @@ import Driver.CramOps
 import Driver.EscOps
 import Driver.RulesOps
 import Driver.GrammarOps
+import Driver.UpdateOps
 /-! Line-protocol driver: one operation per input line, one canonical line out. -/
 namespace Driver
-open Driver.CramOps Driver.MarkdownOps Driver.EscOps Driver.RulesOps Driver.YamlOps Driver.TplOps Driver.PrettyOps Driver.GrammarOps
+open Driver.CramOps Driver.MarkdownOps Driver.EscOps Driver.RulesOps Driver.YamlOps Driver.TplOps Driver.PrettyOps Driver.GrammarOps Driver.UpdateOps
 
 def step (line : String) : String :=
   match line.trimAscii.toString.splitOn " " with
@@ -58,6 +59,7 @@ def step (line : String) : String :=
   | "oracle-only" :: args => opOracleOnly args
   | "gram" :: args => opGram args
   | "gwhite" :: args => opGWhite args
+  | "upd" :: args => opUpd args
   | _ => "bad-op"
 
 partial def loop (h : IO.FS.Stream) (out : IO.FS.Stream) : IO Unit := do
